@@ -11,6 +11,7 @@ mod mime;
 mod transports;
 mod dkim;
 mod tls;
+mod misc;
 mod oracles;
 
 pub fn hex(b: &[u8]) -> String {
@@ -34,12 +35,36 @@ pub fn unhex(s: &str) -> Vec<u8> {
         .collect()
 }
 
+fn pure_loop() {
+    let stdin = io::stdin();
+    let stdout = io::stdout();
+    let mut out = io::BufWriter::new(stdout.lock());
+    for line in stdin.lock().lines() {
+        let line = line.unwrap();
+        if line.is_empty() {
+            continue;
+        }
+        let f: Vec<&str> = line.split('\t').collect();
+        let r = std::panic::catch_unwind(|| pure::dispatch(&f));
+        match r {
+            Ok(s) => writeln!(out, "{}", s).unwrap(),
+            Err(_) => writeln!(out, "PANIC").unwrap(),
+        }
+        out.flush().unwrap();
+    }
+}
+
 fn main() {
     let args: Vec<String> = std::env::args().collect();
     let mode = args.get(1).map(String::as_str).unwrap_or("pure");
     match mode {
         "pure" => {
             if std::env::var("VERIF_PANIC_MSG").is_err() { std::panic::set_hook(Box::new(|_| {})); }
+            // run on a thread with the default 2 MiB stack of spawned threads (the main thread has 8 MiB)
+            let h = std::thread::Builder::new().stack_size(2 << 20).spawn(pure_loop).unwrap();
+            if h.join().is_err() { std::process::exit(3); }
+        }
+        "pure-main-stack" => {
             let stdin = io::stdin();
             let stdout = io::stdout();
             let mut out = io::BufWriter::new(stdout.lock());
